@@ -4,6 +4,7 @@ import (
 	"bytes"
 	"fmt"
 	"os"
+	"strings"
 	"sync"
 	"testing"
 
@@ -211,7 +212,14 @@ func checkC06Static(c CaseC06Static) error {
 var c06NoSizeClasses bool // set by C18, whose workloads repeat every parse dozens of times under the race detector
 
 func genC06Msg(t *rapid.T, zone string, ext ExtSpec) (*rgen.Msg, int, int) {
+	m, a, b, _ := genC06MsgModel(t, zone, ext)
+	return m, a, b
+}
+
+// genC06MsgModel also reports whether the reference models (C02, C16, C17) apply to the message.
+func genC06MsgModel(t *rapid.T, zone string, ext ExtSpec) (*rgen.Msg, int, int, bool) {
 	var m *rgen.Msg
+	modelOK := true
 	switch ext.Kind {
 	case "nycttrips":
 		m, _, _, _ = genNyctMsg(t, zone)
@@ -222,6 +230,7 @@ func genC06Msg(t *rapid.T, zone string, ext ExtSpec) (*rgen.Msg, int, int) {
 		if rapid.Bool().Draw(t, "conflicting") {
 			// determinism is claimed for ALL inputs: also messages that describe a trip or vehicle twice, or link one vehicle to several trips
 			m, _ = genAnyMsg(t, zone)
+			modelOK = false
 		} else {
 			o := rgen.DefaultGenOpts(zone)
 			o.NoPartialDescriptors = true
@@ -248,7 +257,7 @@ func genC06Msg(t *rapid.T, zone string, ext ExtSpec) (*rgen.Msg, int, int) {
 			idVehicles++
 		}
 	}
-	return m, idVehicles, nR
+	return m, idVehicles, nR, modelOK
 }
 
 func TestC06Realtime(t *testing.T) {
@@ -337,5 +346,129 @@ func TestC06Static(t *testing.T) {
 			})
 		}
 		vt.Run(t, c06StaticRec, c, checkC06Static)
+	})
+}
+
+// ---- every input, accepted or not, is left untouched and gives the same outcome each time
+
+type CaseC06Bytes struct {
+	Static  bool
+	Data    []byte
+	Inherit bool
+	Ext     ExtSpec
+	Zone    string
+}
+
+var c06BytesRec = vt.NewRecorder("C06", "TestC06Bytes",
+	"inputs that are not (or barely) well-formed: rendered archives (with and without an archive comment) cut short by 1 ... len(comment) ... any number of bytes, with mutated bytes, with bytes appended; "+
+		"realtime messages cut short or mutated; x options. Oracle: after every call the input slice equals a pristine copy; three calls give the same outcome (same normal form, or an error each time). "+
+		"Non-trivial = the input differs from a well-formed rendering (so the parser's rejection and recovery paths run)")
+
+func init() { registerReplay("C06", "TestC06Bytes", checkC06Bytes) }
+
+func checkC06Bytes(c CaseC06Bytes) error {
+	in := append(make([]byte, 0, len(c.Data)+64), c.Data...) // spare capacity, as a caller's buffer may have
+	pristine := append([]byte(nil), c.Data...)
+	var first string
+	for i := 0; i < 3; i++ {
+		var js string
+		if c.Static {
+			s, err := gtfs.ParseStatic(in, gtfs.ParseStaticOptions{InheritWheelchairBoarding: c.Inherit})
+			if err != nil {
+				js = "ERROR"
+			} else {
+				js = sgen.JS(sgen.Normalize(s))
+			}
+		} else {
+			r, err := gtfs.ParseRealtime(in, c.Ext.options(c.Zone))
+			if err != nil {
+				js = "ERROR"
+			} else {
+				js = rgen.JS(rgen.Normalize(r))
+			}
+		}
+		if !bytes.Equal(in, pristine) {
+			k := 0
+			for k < len(in) && in[k] == pristine[k] {
+				k++
+			}
+			return vt.FailSig("input-modified", "the parser modified its input: byte %d of %d was %#x and is now %#x (outcome of the call: %.40s)", k, len(in), pristine[k], in[k], js)
+		}
+		if i == 0 {
+			first = js
+		} else if js != first {
+			return vt.FailSig("nondeterministic", "call #%d on the same bytes differs from call #1: %s", i+1, rgen.FirstDiff(js, first))
+		}
+	}
+	return nil
+}
+
+func TestC06Bytes(t *testing.T) {
+	rapid.Check(t, func(t *rapid.T) {
+		c := CaseC06Bytes{Static: rapid.IntRange(0, 3).Draw(t, "static") != 0, Inherit: rapid.Bool().Draw(t, "inherit")}
+		var cls []string
+		var orig []byte
+		if c.Static {
+			o := sgen.DefaultGenOpts()
+			o.MaxStops, o.MaxTrips, o.MaxStopTimes = 4, 3, 3
+			f, _ := sgen.GenFeed(t, o)
+			p := sgen.Canonical()
+			if rapid.Bool().Draw(t, "comment") {
+				p.Comment = rapid.SampledFrom([]string{"x", "generated 2024-01-01 by export tool v1.2", strings.Repeat("archive comment ", 20), strings.Repeat("c", 65535)}).Draw(t, "zipComment")
+				cls = append(cls, "archive-comment")
+			}
+			orig = sgen.Render(f.Tables(), p)
+			c.Data = append([]byte(nil), orig...)
+			switch rapid.IntRange(0, 5).Draw(t, "damage") {
+			case 0: // cut inside the comment / the end-of-central-directory record
+				cut := rapid.IntRange(1, len(p.Comment)+30).Draw(t, "cutTail")
+				if rapid.Bool().Draw(t, "cutSmall") {
+					cut = rapid.IntRange(1, min(len(p.Comment)+1, 50)).Draw(t, "cutTailSmall")
+				}
+				c.Data = c.Data[:max(0, len(c.Data)-cut)]
+				cls = append(cls, "cut-tail")
+			case 1:
+				c.Data = c.Data[:rapid.IntRange(0, len(c.Data)).Draw(t, "cutAny")]
+				cls = append(cls, "cut-anywhere")
+			case 2:
+				c.Data = mutateBytes(t, c.Data)
+				cls = append(cls, "mutated")
+			case 3:
+				c.Data = append(c.Data, rapid.SliceOfN(rapid.Byte(), 1, 40).Draw(t, "appended")...)
+				cls = append(cls, "bytes-appended")
+			case 4: // the comment length field says more than there is
+				if n := len(c.Data) - len(p.Comment) - 2; n >= 0 {
+					c.Data[n] = byte(rapid.IntRange(0, 255).Draw(t, "commentLenLo"))
+					c.Data[n+1] = byte(rapid.IntRange(0, 255).Draw(t, "commentLenHi"))
+				}
+				cls = append(cls, "comment-length-wrong")
+			default:
+				cls = append(cls, "well-formed")
+			}
+		} else {
+			c.Zone = rapid.SampledFrom([]string{"", "America/New_York"}).Draw(t, "zone")
+			c.Ext = genExtSpec(t)
+			m, _, _ := genC06Msg(t, c.Zone, c.Ext)
+			orig = m.Marshal()
+			c.Data = append([]byte(nil), orig...)
+			switch rapid.IntRange(0, 2).Draw(t, "damage") {
+			case 0:
+				c.Data = c.Data[:rapid.IntRange(0, len(c.Data)).Draw(t, "cutAny")]
+				cls = append(cls, "cut-anywhere")
+			case 1:
+				c.Data = mutateBytes(t, c.Data)
+				cls = append(cls, "mutated")
+			default:
+				cls = append(cls, "well-formed")
+			}
+			cls = append(cls, "realtime")
+		}
+		c06BytesRec.Eval(cls...)
+		if !bytes.Equal(c.Data, orig) {
+			c06BytesRec.NontrivialCase(vt.Fingerprint(c), func() any {
+				return map[string]any{"static": c.Static, "bytes": len(c.Data), "well_formed_bytes": len(orig), "classes": cls}
+			})
+		}
+		vt.Run(t, c06BytesRec, c, checkC06Bytes)
 	})
 }
